@@ -189,7 +189,8 @@ DoKV(db, c, k, a, t, now) ==
                 s1 == IF s < 0 THEN Max2(n + s, 0) ELSE s
                 e0 == IF e < 0 THEN Max2(n + e, 0) ELSE e
                 e1 == IF e0 >= n THEN n - 1 ELSE e0
-            IN Res(db, IF n = 0 \/ s1 > e1 \/ (s < 0 /\ e < 0 /\ s > e) THEN RBulk(<<>>) ELSE RBulk(SubSeq(rd.v, s1 + 1, e1 + 1)))
+            IN \* "out of range requests are limited to the actual length of the string" (Redis doc)
+               Res(db, IF n = 0 \/ s1 > e1 THEN RBulk(<<>>) ELSE RBulk(SubSeq(rd.v, s1 + 1, e1 + 1)))
        [] c = "ttl"    -> Res(db, RInt(IF Policy = "wc" /\ rd.has /\ rd.exp # 0 THEN rd.exp - now ELSE -1))
        [] c = "set"    -> Res(PutKV(db, k, KVSet(raw, Val(a[1]))), ROk)
        [] c = "setx"   -> \* SET k v [EX d] [NX|XX]: a = <<vid, d (0 none), mode (0 none, 1 NX, 2 XX)>>
